@@ -87,7 +87,7 @@ def cap_rules(F, rep, P, maxpts):
                     capped = _has_take(body, t["a"][0], maxpts)
                     rep.check(P + ".cap", "%s caps the seek points at MAX_POINTS before try_into().unwrap()" % strip_generics(body.path), capped, loc_of(body, t), "",
                               "a seek table is built from an uncapped iterator: more than %s frames would panic in try_into().unwrap()" % maxpts)
-    rep.floor(P + ".cap", "seek table builders", ncap, 3)
+    rep.floor(P + ".cap", "seek table builders", ncap, 2)
 
 
 def run(ctx, rep):
